@@ -1178,4 +1178,75 @@ theorem liveKs_le_one (s : St) (ms : C04St) (hc : Cur s) (hl : LinkA s ms) : (li
     subst this
     exact hl.l4 k1 k2 n1 e1 e2
 
+theorem c05b_step (s s' : St) (e : Ev) (msA : C04St) (hc : Cur s) (hl : LinkA s msA) (hs : step s e = some s') :
+    ∀ o, Ev.obs e = some o → monC05b.step () o = some () := by
+  intro o ho
+  cases e with
+  | quiesce p r l =>
+    simp only [Ev.obs, Option.some.injEq] at ho
+    subst ho
+    simp only [step] at hs
+    split at hs
+    · rename_i hq
+      have : l = liveKs s := hq.2.2.2
+      subst this
+      simp [monC05b, liveKs_le_one s msA hc hl]
+    · cases hs
+  | emit o' =>
+    simp only [Ev.obs, Option.some.injEq] at ho
+    subst ho
+    have hline : o'.isLine = true := by
+      simp only [step, stepI] at hs
+      split at hs
+      · split at hs
+        · rename_i h0; exact h0.2
+        · cases hs
+      · cases hs
+    cases o' <;> simp [Obs.isLine] at hline <;> rfl
+  | cfg c => simp only [Ev.obs, Option.some.injEq] at ho; subst ho; rfl
+  | inv a op => simp only [Ev.obs, Option.some.injEq] at ho; subst ho; rfl
+  | ret a r => simp only [Ev.obs, Option.some.injEq] at ho; subst ho; rfl
+  | cbin k n f arg root => simp only [Ev.obs, Option.some.injEq] at ho; subst ho; rfl
+  | cbout k o' => simp only [Ev.obs, Option.some.injEq] at ho; subst ho; rfl
+  | envCancel c => simp only [Ev.obs, Option.some.injEq] at ho; subst ho; rfl
+  | envCancelW a => simp only [Ev.obs, Option.some.injEq] at ho; subst ho; rfl
+  | probeCtx k b => simp only [Ev.obs, Option.some.injEq] at ho; subst ho; rfl
+  | probeW a b => simp only [Ev.obs, Option.some.injEq] at ho; subst ho; rfl
+  | cs a => simp [Ev.obs] at ho
+  | wake a => simp [Ev.obs] at ho
+  | wctx a => simp [Ev.obs] at ho
+  | envDo c => simp [Ev.obs] at ho
+  | giveUp n => simp [Ev.obs] at ho
+  | drained n => simp [Ev.obs] at ho
+  | closeExit n => simp [Ev.obs] at ho
+  | record n dur => simp [Ev.obs] at ho
+  | fire t => simp [Ev.obs] at ho
+  | timerCS t => simp [Ev.obs] at ho
+
+theorem c05b_run (s0 s : St) (es : List Ev) (hg : Good s0) (hc : Cur s0) (msA : C04St) (hl : LinkA s0 msA)
+    (hr : model.run s0 es = some s) : monC05b.run () (es.filterMap model.obs) = some () := by
+  induction es generalizing s0 msA with
+  | nil => rfl
+  | cons e es ih =>
+    simp only [OLTS.run] at hr
+    cases hst : model.step s0 e with
+    | none => simp [hst] at hr
+    | some s1 =>
+      simp [hst] at hr
+      have hk := step_ok s0 s1 e hg.recs hst
+      have hg1 : Good s1 := ⟨hk.1, hk.2.inv hg.chain⟩
+      have hc1 := step_cur s0 s1 e hc hg.recs hst
+      have hA := link_step s0 s1 e msA hl hg.recs hst hg1
+      have hb := c05b_step s0 s1 e msA hc hl hst
+      cases hob : Ev.obs e with
+      | none =>
+        rw [hob] at hA
+        have : model.obs e = none := hob
+        simpa [List.filterMap_cons, this] using ih s1 hg1 hc1 msA hA hr
+      | some o =>
+        rw [hob] at hA
+        obtain ⟨msA', _, hl'⟩ := hA
+        have : model.obs e = some o := hob
+        simp [List.filterMap_cons, this, ObsMonitor.run, hb o hob, ih s1 hg1 hc1 msA' hl' hr]
+
 end UtilModel.Routine
